@@ -1,9 +1,10 @@
 SPECIFICATION Spec
 CONSTANTS
-  Programs <- AllPrograms
+  Programs <- FamilyDeep
   QuerySeqs <- QS3
   Permute = TRUE
   CheckOnTableHit = TRUE
   RepairFalseResult = TRUE
+  LinkStopsAtNegation = FALSE
 CONSTRAINT Export
 CHECK_DEADLOCK FALSE
